@@ -207,7 +207,14 @@ func c31(x *Ctx) {
 	if dr := x.Fn(r6, "collect/cache", "CuckooTraceChecker", "drain"); dr != nil {
 		curF := eng.FieldIs("collect/cache", "CuckooTraceChecker", "current")
 		futF := eng.FieldIs("collect/cache", "CuckooTraceChecker", "future")
-		addch := eng.FieldIs("collect/cache", "CuckooTraceChecker", "addch")
+		// the add queue: the channel-typed field of the checker (identified by type, not by name)
+		addch := func(fr eng.FieldRef) bool {
+			if fr.Struct == nil || fr.Struct.Obj().Name() != "CuckooTraceChecker" || fr.Var == nil {
+				return false
+			}
+			_, isChan := fr.Var.Type().Underlying().(*types.Chan)
+			return isChan && fr.Name != "done"
+		}
 		insertInto := func(in ssa.Instruction, fld func(eng.FieldRef) bool) bool {
 			cl, ok := in.(ssa.CallInstruction)
 			if !ok || !strings.HasSuffix(eng.CalleeName(cl), ".Insert") {
